@@ -150,6 +150,7 @@ def make_engine(case):
         class Top:
             volumes = case['vols']
             bending = {}
+            molecules = mols          # the engine addresses molecules by their index in the topology
         eng = nbe.NonBondEngine.from_topology(mols, Top, box)
     else:
         positions = np.ones((n, 3)) * np.inf
